@@ -208,6 +208,12 @@ static enum DeviceState sto_set(struct Storage* self_, const struct StoragePrope
     (void)p;
     detsched_yield("sto.set");
     g_dev[s->dev].calls_after_close += g_dev[s->dev].closed;
+    if (g_mock.sto_set_fails[s->dev] > 0) {
+        g_mock.sto_set_fails[s->dev]--;
+        g_dev[s->dev].needs_config = 1;
+        drvlog(s->dev, "set", "-> awaiting (settings rejected)");
+        return DeviceState_AwaitingConfiguration;
+    }
     g_dev[s->dev].needs_config = 0;
     drvlog(s->dev, "set", "-> armed");
     return DeviceState_Armed;
@@ -285,6 +291,8 @@ static enum DeviceState sto_append(struct Storage* self_, const struct VideoFram
         g_dev[s->dev].stored -= nfr;
         mock_unrecord_frames(s->dev, nfr);
         drvlog(s->dev, "append", "call=%u bytes=%zu frames=%d -> armed (fault)", call, *nbytes, nfr);
+        // a driver may say how much of the packet it had taken before it failed; that is information, not an invitation to go on
+        if (g_mock.sto_reports_consumed && nfr >= 2) *nbytes = ((const struct VideoFrame*)frame)->bytes_of_frame;
         return DeviceState_Armed;
     }
     drvlog(s->dev, "append", "call=%u bytes=%zu frames=%d -> running", call, *nbytes, nfr);
